@@ -101,13 +101,15 @@ func HarnessC07Request() {
 	kind, proto := variant/3, variant%3
 	userCalls := 0
 	receivedOK := 0
-	opts := []HandlerOption{WithCodec(&stackCodec{}), WithCompressMinBytes(1 << 20), c08XorHandler("gzip"), WithReadMaxBytes(4)}
+	const limit = 4
+	opts := []HandlerOption{WithCodec(&stackCodec{}), WithCompressMinBytes(1 << 20), c08XorHandler("gzip"), WithReadMaxBytes(limit)}
 	var handler *Handler
 	switch kind {
 	case 0:
 		handler = NewUnaryHandler("/pkg.Svc/Method", func(ctx context.Context, req *Request[[]byte]) (*Response[[]byte], error) {
 			userCalls++
 			receivedOK++
+			check(len(*req.Msg) <= limit, "user code never receives a message above the read limit")
 			out := []byte{1}
 			return NewResponse(&out), nil
 		}, opts...)
@@ -116,7 +118,7 @@ func HarnessC07Request() {
 			userCalls++
 			for s.Receive() {
 				receivedOK++
-				check(len(*s.Msg()) <= 4, "user code never receives a message above the read limit")
+				check(len(*s.Msg()) <= limit, "user code never receives a message above the read limit")
 			}
 			if err := s.Err(); err != nil {
 				return nil, err
@@ -128,7 +130,7 @@ func HarnessC07Request() {
 		handler = NewServerStreamHandler("/pkg.Svc/Method", func(ctx context.Context, req *Request[[]byte], s *ServerStream[[]byte]) error {
 			userCalls++
 			receivedOK++
-			check(len(*req.Msg) <= 4, "user code never receives a message above the read limit")
+			check(len(*req.Msg) <= limit, "user code never receives a message above the read limit")
 			out := []byte{1}
 			return s.Send(&out)
 		}, opts...)
@@ -144,7 +146,7 @@ func HarnessC07Request() {
 					return err
 				}
 				receivedOK++
-				check(len(*m) <= 4, "user code never receives a message above the read limit")
+				check(len(*m) <= limit, "user code never receives a message above the read limit")
 			}
 		}, opts...)
 	}
@@ -387,4 +389,91 @@ func allZeros(s string) bool {
 		}
 	}
 	return true
+}
+
+// HarnessC07Oversize: a complete message above the handler's read limit
+// (limit 2, payload of 3 arbitrary bytes; sent plain or - for the size after
+// decompression - compressed), for each RPC kind and protocol: it is never
+// handed to user code and the peer is told invalid_argument or
+// resource_exhausted, never success.
+//
+//verif:harness property=C07 stubs=json,wire,ctx shard=variant:12
+func HarnessC07Oversize() {
+	variant := nondetChoice("variant", 12)
+	kind, proto := variant/3, variant%3
+	const limit = 2
+	delivered := 0
+	opts := []HandlerOption{WithCodec(&stackCodec{}), WithCompressMinBytes(1 << 20), c08XorHandler("gzip"), WithReadMaxBytes(limit)}
+	seen := func(n int) {
+		delivered++
+		check(n <= limit, "user code never receives a message above the read limit")
+	}
+	var handler *Handler
+	switch kind {
+	case 0:
+		handler = NewUnaryHandler("/pkg.Svc/Method", func(ctx context.Context, req *Request[[]byte]) (*Response[[]byte], error) {
+			seen(len(*req.Msg))
+			out := []byte{1}
+			return NewResponse(&out), nil
+		}, opts...)
+	case 1:
+		handler = NewClientStreamHandler("/pkg.Svc/Method", func(ctx context.Context, s *ClientStream[[]byte]) (*Response[[]byte], error) {
+			for s.Receive() {
+				seen(len(*s.Msg()))
+			}
+			if err := s.Err(); err != nil {
+				return nil, err
+			}
+			out := []byte{1}
+			return NewResponse(&out), nil
+		}, opts...)
+	case 2:
+		handler = NewServerStreamHandler("/pkg.Svc/Method", func(ctx context.Context, req *Request[[]byte], s *ServerStream[[]byte]) error {
+			seen(len(*req.Msg))
+			out := []byte{1}
+			return s.Send(&out)
+		}, opts...)
+	default:
+		handler = NewBidiStreamHandler("/pkg.Svc/Method", func(ctx context.Context, s *BidiStream[[]byte, []byte]) error {
+			for {
+				m, err := s.Receive()
+				if err != nil {
+					if isEOF(err) {
+						return nil
+					}
+					return err
+				}
+				seen(len(*m))
+			}
+		}, opts...)
+	}
+	payload := nondetBytesN("payload", 3)
+	compressed := nondetBool("compressed")
+	unaryConnect := proto == 0 && kind == 0
+	ct := []string{"application/connect+proto", "application/grpc+proto", "application/grpc-web+proto"}[proto]
+	encHeader := []string{connectStreamingHeaderCompression, grpcHeaderCompression, grpcHeaderCompression}[proto]
+	wire := payload
+	if compressed {
+		wire = append([]byte{0xC5}, payload[0]^0x5A, payload[1]^0x5A, payload[2]^0x5A)
+	}
+	var body []byte
+	if unaryConnect {
+		ct, encHeader, body = "application/proto", connectUnaryHeaderCompression, wire
+	} else if compressed {
+		body = refFrame(1, wire)
+	} else {
+		body = refFrame(0, wire)
+	}
+	header := http.Header{"Content-Type": {ct}}
+	if compressed {
+		header[encHeader] = []string{"gzip"}
+	}
+	rec := newRecWriter()
+	req := &http.Request{Method: "POST", ProtoMajor: 2, Header: header, Body: &faultReader{data: body, cut: len(body)}}
+	handler.ServeHTTP(rec, req)
+	status, rh, rt, rbody := rec.finish()
+	code, wellFormed := c07ResponseCode(proto, unaryConnect, status, rh, rt, rbody)
+	check(wellFormed, "the response is well-formed")
+	check(delivered == 0, "an oversize message is not delivered")
+	check(code == int(CodeInvalidArgument) || code == int(CodeResourceExhausted), "an oversize message reaches the peer as invalid_argument or resource_exhausted, never as success")
 }
